@@ -42,4 +42,7 @@ theorem export_without_option_is_raw :
 /-- regenerated from the source on every run: StartWithPortmapper computes the ports it registers after Listen has bound -/
 theorem gen_portmapper_registers_bound_port : Gen.portmapperRegistersAfterListen = true := by decide
 
+/-- regenerated from the source on every run: a closing connection gives its slot back whatever the Debug option (Export cannot turn Debug on) -/
+theorem gen_uncount_unconditional : Gen.unregisterUncountsUnconditionally = true := by decide
+
 end Props.C28
